@@ -518,3 +518,31 @@ Theorem C17_heap_nonvacuous_roundtrip_instance :
     Rfc6902.doc_eq (reify (h_str h3) docT) (reify (h_str gx_heap2) gx_to).
 Proof. exact gx_roundtrip_instance. Qed.
 Print Assumptions C17_heap_nonvacuous_roundtrip_instance.
+
+(** ------------------------------------------------------------------ 7. the hypothesis [gdoc] *)
+
+(** Two string nodes WITHOUT a valuestring under the same name (not a JSON value): create_patches calls
+    strcmp(from->valuestring, to->valuestring) — a NULL dereference in the model.  (On /repo: SEGV in strcmp called from
+    create_patches, cJSON_Utils.c:1241, confirmed with an ASan probe.) *)
+Theorem C17_heap_string_without_value_null_deref :
+  MInv gx_heap3 [gx_from3; gx_to3] /\
+  out_err (GenPatchHeapDefs.cJSONUtils_GeneratePatchesCaseSensitive nofail (Some 1%positive) (Some 10%positive) gx_heap3) = Some NullDeref.
+Proof. exact gx_string_without_value_null_deref. Qed.
+Print Assumptions C17_heap_string_without_value_null_deref.
+
+(** A member of [to] WITHOUT a name (what cJSON_AddItemToArray(object, item) builds; not a JSON value; the heap-level
+    sort theorem of C19 does not cover it): compare_strings answers 1 for a NULL name and compose_patch is called with
+    suffix NULL.  No memory error; heap-level code, value-level model and /repo (probe) agree on the outcome — the single
+    operation {"op":"add","path":"","value":5}, which would replace the whole document. *)
+Theorem C17_heap_keyless_member_observed :
+  MInv gx_heap4 [gx_from4; gx_to4] /\ ~ gdoc gx_to4 /\
+  out_val gx_run4 = Some (Some 1000%positive) /\
+  (match PatchDefs.cJSONUtils_GeneratePatchesCaseSensitive (reify gx_St4 gx_from4) (reify gx_St4 gx_to4) with
+   | Ok (patches, _, _) =>
+       out_val (CoreOps.dump_node 50 (Some 1000%positive) (out_heap gx_run4 gx_heap4)) = Some (Some (patches, true)) /\
+       patches = PatchDefs.set_children PatchDefs.create_array
+                   (PatchDefs.compose_patch [] PatchDefs.s_add [] None (Some (Tree.Node c_cJSON_Number None 5 (dbl_of_int 5) None [])))
+   | _ => False
+   end).
+Proof. exact gx_keyless_member_observed. Qed.
+Print Assumptions C17_heap_keyless_member_observed.
